@@ -60,6 +60,7 @@ type timeCand struct {
 type chg struct {
 	Off  uint32   `json:"off"`
 	Data hexBytes `json:"data"`
+	mod  []bool   // which bytes of Data really changed (merged ranges contain up to 8 unchanged bytes between changed ones)
 }
 
 // rec is what the trace holds for one call.
@@ -424,7 +425,11 @@ func diffRanges(old, cur []byte) []chg {
 	start, end := -1, -1
 	flush := func() {
 		if start >= 0 {
-			out = append(out, chg{Off: uint32(start), Data: append([]byte(nil), cur[start:end+1]...)})
+			m := make([]bool, end+1-start)
+			for i := range m {
+				m[i] = old[start+i] != cur[start+i]
+			}
+			out = append(out, chg{Off: uint32(start), Data: append([]byte(nil), cur[start:end+1]...), mod: m})
 			start = -1
 		}
 	}
@@ -482,7 +487,26 @@ func (in *inst) scanCall(cc *callCtx, k int, c *wcall, r *rec, where string) {
 			if len(n.B) < minLen || len(n.B) > len(ch.Data) {
 				continue
 			}
-			if i := bytes.Index(ch.Data, n.B); i >= 0 {
+			i := -1
+			for from := 0; from+len(n.B) <= len(ch.Data); {
+				j := bytes.Index(ch.Data[from:], n.B)
+				if j < 0 {
+					break
+				}
+				// the match must contain a byte this call really changed (bytes between
+				// two changed ones are older content)
+				for x := from + j; x < from+j+len(n.B); x++ {
+					if ch.mod == nil || ch.mod[x] {
+						i = from + j
+						break
+					}
+				}
+				if i >= 0 {
+					break
+				}
+				from += j + 1
+			}
+			if i >= 0 {
 				kind := n.Kind
 				if j := strings.IndexByte(kind, ':'); j >= 0 && !strings.HasPrefix(kind, "env-value:VERIF_CANARY") {
 					kind = kind[:j]
@@ -528,7 +552,7 @@ func (in *inst) scanCall(cc *callCtx, k int, c *wcall, r *rec, where string) {
 			case near(v, sec*1e9, day*1e9):
 				sc = "ns-u64"
 			}
-			if sc != "" {
+			if sc != "" && anyMod(ch.mod, i, 8) {
 				hit64 = true
 				hit(sc, i)
 			}
@@ -538,12 +562,24 @@ func (in *inst) scanCall(cc *callCtx, k int, c *wcall, r *rec, where string) {
 				if (ch.Off+uint32(i)-regOff)%4 != 0 {
 					continue
 				}
-				if near(uint64(binary.LittleEndian.Uint32(ch.Data[i:])), sec, day) {
+				if near(uint64(binary.LittleEndian.Uint32(ch.Data[i:])), sec, day) && anyMod(ch.mod, i, 4) {
 					hit("s-u32", i)
 				}
 			}
 		}
 	}
+}
+
+func anyMod(m []bool, i, n int) bool {
+	if m == nil {
+		return true
+	}
+	for x := i; x < i+n && x < len(m); x++ {
+		if m[x] {
+			return true
+		}
+	}
+	return false
 }
 
 const (
